@@ -21,8 +21,9 @@ ASSUMPTIONS = [
     "values of the separately built part come from the same library (differential); this check decides alignment, shape and joint dropping",
 ]
 
-VARS = ["y", "w", "x", "z"]
-BASE = {"y": [10.0, 20.0, 30.0, 40.0], "w": [0.5, -1.5, 2.5, 4.0], "x": [1.0, 2.0, 4.0, 8.0], "z": ["p", "q", "p", "r"]}
+VARS = ["y", "w", "x", "z", "g"]
+BASE = {"y": [10.0, 20.0, 30.0, 40.0], "w": [0.5, -1.5, 2.5, 4.0], "x": [1.0, 2.0, 4.0, 8.0], "z": ["p", "q", "p", "r"], "g": ["u", "v", "v", "u"]}
+TEXT = ("z", "g")
 
 # name -> (constructor, variables used)
 SPECS = {
@@ -39,6 +40,12 @@ SPECS = {
     "Formula(a='x + z', b={'lhs': 'y', 'rhs': 'w'})": (lambda: Formula(a="x + z", b={"lhs": "y", "rhs": "w"}), "ywxz"),
     "Formula('x', extra='z')": (lambda: Formula("x", extra="z"), "xz"),
     "Formula(lhs='y', rhs=('x', 'z'))": (lambda: Formula(lhs="y", rhs=("x", "z")), "yxz"),
+    # the same categorical interaction / contrast-coded factor in parts whose preceding terms differ (rank reduction is per part)
+    "y ~ z + z:g | g + z:g": (lambda: Formula("y ~ z + z:g | g + z:g"), "yzg"),
+    "Formula(lhs='y', rhs=('x + z:g', '1 + z:g'))": (lambda: Formula(lhs="y", rhs=("x + z:g", "1 + z:g")), "yxzg"),
+    "y ~ 0 + C(z, contr.helmert) | C(z, contr.helmert) + x": (lambda: Formula("y ~ 0 + C(z, contr.helmert) | C(z, contr.helmert) + x"), "yxz"),
+    "y ~ 0 + C(g, contr.sum):x | C(g, contr.sum) + x": (lambda: Formula("y ~ 0 + C(g, contr.sum):x | C(g, contr.sum) + x"), "yxg"),
+    "Formula(('0 + z', 'z', 'x:z'))": (lambda: Formula(("0 + z", "z", "x:z")), "xz"),
     # a part without columns, and nested tuples
     "y ~ x | 0": (lambda: Formula("y ~ x | 0"), "yx"),
     "y + z ~ 0": (lambda: Formula("y + z ~ 0"), "yz"),
@@ -71,8 +78,8 @@ def make_frame(nulls, index_kind):
         vals = list(BASE[v])
         for (vv, i) in nulls:
             if vv == v:
-                vals[i] = None if v == "z" else np.nan
-        cols[v] = pd.Series(vals, dtype=object) if v == "z" else vals
+                vals[i] = None if v in TEXT else np.nan
+        cols[v] = pd.Series(vals, dtype=object) if v in TEXT else vals
     df = pd.DataFrame(cols)
     if index_kind == "strings":
         df.index = ["r%d" % i for i in range(4)]
@@ -84,8 +91,8 @@ def make_frame(nulls, index_kind):
 def drv(c, ctx, col):
     name = c.pick(ctx["specs"])
     mk, used = SPECS[name]
-    used = [{"y": "y", "w": "w", "x": "x", "z": "z"}[ch] for ch in used]
-    cells = [(v, i) for v in VARS for i in range(4)]
+    used = [{"y": "y", "w": "w", "x": "x", "z": "z", "g": "g"}[ch] for ch in used]
+    cells = [(v, i) for v in VARS for i in range(4) if v in used]
     k = c.upto(ctx["K"])
     nulls, start = [], 0
     for _ in range(k):
